@@ -130,6 +130,16 @@ func genHist(g *G, n int, out io.Writer) {
 			pool = append(pool, g.graph(2+g.n(5), 0.4).RenderFlat())
 			kinds = append(kinds, "graph")
 		}
+		// near-identical documents: the first graph again with white space put INTO one of its string values, with a number respelt,
+		// with its top-level nodes in the opposite order - documents that differ, however little, are different documents
+		for _, d := range pool[:1] {
+			for _, v := range []string{strings.Replace(d, `"cc"`, `"c c"`, 1), strings.Replace(d, `"ddd"`, `"d\tdd"`, 1), strings.Replace(d, `"true"`, `" true"`, 1), strings.Replace(d, `:[1`, `:[10`, 1)} {
+				if v != d {
+					pool = append(pool, v, d)
+					kinds = append(kinds, "graph-near-copy", "graph")
+				}
+			}
+		}
 		if i%3 == 1 {
 			h.Interfere = interferingProfiles(g)
 		}
